@@ -372,7 +372,7 @@ func (ee *explainer) explainFlags(flags gtab.LookupFlags) {
 		ee.w.WriteString(" -base")
 	}
 	if flags&gtab.IgnoreLigatures != 0 {
-		ee.w.WriteString(" -lig")
+		ee.w.WriteString(" -ligs")
 	}
 	// if flags&UseMarkFilteringSet != 0 {
 	// 	ee.w.WriteString(" -UseMarkFilteringSet")
